@@ -254,6 +254,28 @@ func runSetHistory[T comparable](c *core.Ctx, d *Dom[T], kind int) {
 	for s := 0; s < steps; s++ {
 		m.Step()
 	}
+	// focus bursts with long observation gaps: membership questions, removals
+	// and re-additions aimed at a value and its neighbours in alphabet (= key)
+	// order - the sequences a "last node found" cache in the tree gets wrong
+	if len(d.Alpha) >= 5 {
+		c.SetGapMax(24)
+		for b := c.R.Range(3, 12); b > 0; b-- {
+			f := c.R.Range(2, len(d.Alpha)-3)
+			for s := c.R.Range(4, 10); s > 0; s-- {
+				v := d.Alpha[f+c.R.Range(-2, 2)]
+				switch c.R.Pick(40, 25, 35) {
+				case 0:
+					m.ContainsList([]T{v})
+				case 1:
+					m.Remove(v)
+				default:
+					m.Add(v)
+				}
+			}
+		}
+		c.ObserveNow()
+		m.Check()
+	}
 	// remove-then-re-add of every member, one by one
 	for k, v := range append([]T(nil), m.Model...) {
 		if k >= 64 {
